@@ -90,6 +90,8 @@ def explore(ck):
         for c in layouts(r, coin, blocks, k, not quick):
             c.meta['cbs'] = ['csv']; c.meta['group'] = k; cases.append(c)
             if not c.meta.get('own_group'): groups.setdefault(k, []).append(c.id)
+    # a data directory whose index names blk files but which holds none ("No blk files found!"): outside the property's quantifier, correspondence only
+    nb = Case('noblk', 'bitcoin').simple_layout(equal_size_chain(r, 'bitcoin', 3)); nb.files = {}; nb.in_domain = False; nb.meta.update(layout='noblk', cbs=['csv'], group=-1, own_group=True); cases.append(nb)
     models, results = core.compare_cases(ck, cases, lambda c: ['csv'], nontrivial=lambda c, m: (c.meta['group'], c.meta['layout']) if c.meta['layout'] != 'ref' else None,
                                          sample=lambda c, m: dict(case=c.id, coin=c.coin, layout=c.meta['layout'], files={str(n): [(o, len(d)) for o, d in e] for n, e in c.files.items()},
                                                                   names=c.name_of, records=len(c.records), model_status=m['status']))
